@@ -160,8 +160,8 @@ ms_jobs(2, 'debug8', 'thorough', timeout=3000, mem=24)
 ms_jobs(4, 'debug8', 'thorough', timeout=3000, mem=24)
 
 # ---------------------------------------------------------------- memory_pool_collection<node_pool, log2_buckets> steps
-CO_OPS = {1: 'ctor', 2: 'allocate_node', 3: 'try_allocate_node', 4: 'deallocate_node', 5: 'try_deallocate_node', 6: 'dtor', 7: 'allocate_array', 8: 'try_allocate_array'}
-CO_PROPS = {1: ['C01', 'C03', 'C18'], 2: ['C01', 'C02', 'C03', 'C04'], 3: ['C01', 'C02', 'C03', 'C04'], 4: ['C01', 'C04', 'C18'], 5: ['C08', 'C04'],
+CO_OPS = {9: 'reserve', 1: 'ctor', 2: 'allocate_node', 3: 'try_allocate_node', 4: 'deallocate_node', 5: 'try_deallocate_node', 6: 'dtor', 7: 'allocate_array', 8: 'try_allocate_array'}
+CO_PROPS = {9: ['C18', 'C01', 'C04'], 1: ['C01', 'C03', 'C18'], 2: ['C01', 'C02', 'C03', 'C04'], 3: ['C01', 'C02', 'C03', 'C04'], 4: ['C01', 'C04', 'C18'], 5: ['C08', 'C04'],
             6: ['C05'], 7: ['C01', 'C02', 'C03'], 8: ['C01', 'C02', 'C03']}
 def co_jobs(op, config, tier, nslot=2, restmax=48, timeout=900, mem=12):
     add('coll-%s-%s-s%d-r%d' % (CO_OPS[op], config, nslot, restmax), CO_PROPS[op], 'pool', 'coll_step.c', config=config,
@@ -171,9 +171,9 @@ def co_jobs(op, config, tier, nslot=2, restmax=48, timeout=900, mem=12):
         bounds='1..2 used blocks, %d reserved 16-byte slots per block each LIVE / free on the 16-list / free on the 8-list (chains in symbolic order), unreserved rest 0..%d bytes, request size 1..16, upstream may fail' % (nslot, restmax))
 for op in (1, 4, 5, 6):
     co_jobs(op, 'release', 'quick')
-for op in (2, 3):
+for op in (2, 3, 9):
     co_jobs(op, 'release', 'quick', nslot=1, restmax=40)
-for op in (2, 3, 7, 8):
+for op in (2, 3, 7, 8, 9):
     co_jobs(op, 'release', 'thorough', timeout=3000, mem=24)
 for op in range(1, 9):
     co_jobs(op, 'baseline', 'thorough', timeout=3000, mem=24)
@@ -218,12 +218,13 @@ for cfg, tier in (('debug8', 'quick'), ('baseline', 'quick'), ('debug16', 'thoro
 
 # ---------------------------------------------------------------- object-creating helpers with throwing constructors, joint allocations
 SM = {1: ('allocate_unique<elem[]>', ['C20', 'C09', 'C02']), 2: ('allocate_unique<elem>', ['C20', 'C09']), 4: ('allocate_joint<jt> (joint_array<elem> + joint_array<char>)', ['C11', 'C20']),
-      5: ('clone_joint', ['C11', 'C20']), 6: ('joint_ptr move + reset', ['C11', 'C12', 'C20']), 3: ('allocate_shared<elem>', ['C20'])}
+      5: ('clone_joint', ['C11', 'C20']), 7: ('allocate_joint<jt2> (joint_array<char> before joint_array<elem>: padding)', ['C11', 'C20']), 6: ('joint_ptr move + reset', ['C11', 'C12', 'C20']), 3: ('allocate_shared<elem>', ['C20'])}
 def sm_job(case, tier, nmax, timeout=900, mem=12):
     add('smart-%d-n%d' % (case, nmax), SM[case][1], 'smart', 'smart_step.c', config='release', defines=['CASE=%d' % case, 'NMAX=%d' % nmax, 'HEAP_SIZE=512'],
         unwind=20, timeout=timeout, tier=tier, mem_gb=mem, desc='%s with a constructor that throws at a symbolic index (or not at all), leaf allocation may fail' % SM[case][0],
         bounds='array length 0..%d, failure at every constructor call index or none, joint additional size 0..64, second array 0..16 bytes' % nmax)
-sm_job(1, 'quick', 4); sm_job(2, 'quick', 1); sm_job(4, 'quick', 2); sm_job(6, 'quick', 2)
+sm_job(1, 'quick', 4); sm_job(2, 'quick', 1); sm_job(4, 'quick', 2); sm_job(6, 'quick', 2); sm_job(7, 'quick', 2)
+sm_job(7, 'thorough', 4, 3000, 24)
 sm_job(1, 'thorough', 8, 3000, 24); sm_job(4, 'thorough', 4, 3000, 24); sm_job(6, 'thorough', 4, 3000, 24); sm_job(5, 'thorough', 2, 3600, 24)
 
 # ---------------------------------------------------------------- temporary allocator (mode 2)
